@@ -461,3 +461,85 @@ def _ib_ob(where):
 
 for _w in IB_WHERE:
     _ib_ob(_w)
+
+
+# ---------------------------------------------------------------------------------------
+# O6: specific procedures declared by interface BODIES inside a generic interface block have their own accessibility
+# (the module default unless named in an access statement); the generic name has its own
+# ---------------------------------------------------------------------------------------
+G_DEF = [("implicit none", "public"), ("private", "private"), ("PRIVATE", "private")]
+G_ACC = [("implicit none", {}), ("private :: gen", {"gen": "private"}), ("public :: gen", {"gen": "public"}), ("PUBLIC :: GEN, spec_i", {"gen": "public", "spec_i": "public"}),
+         ("private :: spec_r", {"spec_r": "private"})]
+
+
+def _g_files(d0, acc):
+    return {"a.f90": ["module lib", d0, acc, "interface gen", "subroutine spec_i(i)", "integer :: i", "end subroutine spec_i",
+                      "subroutine spec_r(r)", "real :: r", "end subroutine spec_r", "end interface gen",
+                      "contains", "subroutine own()", "end subroutine own", "end module lib"],
+            "b.f90": ["module client", "use lib", "contains", "subroutine go()", "call spec_i(1)", "call spec_r(1.0)", "call gen(1)", "call own()",
+                      "end subroutine go", "end module client"]}
+
+
+def g_rule(default, explicit):
+    acc = {n: explicit.get(n, default) for n in ("gen", "spec_i", "spec_r", "own")}
+    return sorted(n for n, a in acc.items() if a == "public")
+
+
+def _g_observe(p):
+    cl = [m for m in p.modules if str(m.name).lower() == "client"][0]
+    go = cl.subroutines[0]
+    return sorted(str(getattr(c, "name", None)).lower() for c in go.calls if not isinstance(c, str))
+
+
+def replay_g(w):
+    import ford.sourceform as sf
+    old = sf.namelist
+    sf.namelist = sf.NameSelector()
+    try:
+        p = parserh.project_concrete(_g_files(w["default"], w["access"]), **CSET)
+        got = _g_observe(p)
+    finally:
+        sf.namelist = old
+    return got != w["expected"], {"default statement": w["default"], "access statement": w["access"], "calls resolved through `use lib`": got,
+                                  "public names of lib (Fortran)": w["expected"]}
+
+
+@obligation("C06", "O6.generic-interface-bodies", engine="SX(CV)", timeout=900)
+def generic_bodies(ctx):
+    """module with a generic interface made of interface bodies, symbolic default accessibility and access statement (on the generic
+    name, on a specific): `use lib` imports exactly the public ones of {gen, spec_i, spec_r, own}"""
+    import ford.sourceform as sf
+
+    ctx.encode_fn(sf.FortranModule._cleanup)
+    ctx.encode_fn(sf.FortranCodeUnit.process_attribs)
+    ctx.encode_text("FortranProcedure.permission", __import__("inspect").getsource(sf.FortranProcedure), "python-source")
+    ctx.bounds.update({"default statements": len(G_DEF), "access statements": len(G_ACC)})
+
+    kf = ctx.known("C06-access-statement-on-generic-specific", replay_g)
+
+    def h(E):
+        d0 = CV.choice(E, "d0", G_DEF)
+        ac = CV.choice(E, "acc", G_ACC)
+        if kf:
+            # known finding: an access statement naming a specific procedure declared by an interface body of a generic interface
+            E.assume(choice.apply(lambda a: not any(k.startswith("spec_") for k in a), ac[1]))
+        want = choice.apply(g_rule, d0[1], ac[1])
+        E.e.snapshot = lambda m: {"default": choice.value_in_model(m, d0)[0], "access": choice.value_in_model(m, ac)[0],
+                                  "expected": choice.value_in_model(m, want)}
+        got = parserh.project(_g_files(d0[0], ac[0]), post=_g_observe, **CSET)
+        E.reachable("correlated")
+        E.require(choice.apply(lambda w_: list(got) == list(w_), want), "names imported from the module differ from its public names")
+
+    E = sym.Engine(ctx, max_paths=5000, incremental=True)
+    found = E.explore(h)
+    seen = set()
+    for (label, m, pc), snap in zip(found, E.snapshots):
+        if label in seen or not snap:
+            continue
+        seen.add(label)
+        ctx.report(label, snap, replay_g)
+    if E.reached.get("correlated"):
+        ctx.twins += 1
+    else:
+        ctx.inconclusive.append("vacuity: correlate never completed")
+    ctx.sample({"paths": E.paths})
